@@ -509,7 +509,7 @@ def nicer_model(ex, path, extra, I, m):
 
 
 def write_replay(fam, inst, Ic, text, failed, observed):
-    d = os.path.join(os.path.dirname(__file__), '..', '..', 'replays', fam.prop)
+    d = os.path.join(os.environ.get('VF_REPLAY_DIR') or os.path.join(os.path.dirname(__file__), '..', '..', 'replays'), fam.prop)
     os.makedirs(d, exist_ok=True)
     body = dict(property=fam.prop, engine='llir', family=fam.name, kernel=fam.kernel, inst=inst, inputs=jsonable(Ic),
                 call=text, failed=failed, observed=jsonable(observed))
